@@ -4,7 +4,7 @@
    list of SubRoute / Route* / SetUnknown* / AppendLeft / AppendRight in any order. *)
 From Coq Require Import Strings.String Strings.Byte.
 From Coq Require Import List Arith NArith ZArith Bool Lia Sorting.Sorted.
-From Verif Require Import Base.Bytes Model.Plugins Proofs.PluginsProofs.
+From Verif Require Import Base.Bytes Model.Plugins Proofs.PluginsProofs Proofs.PluginsFaultProofs.
 Import ListNotations.
 
 (* effective_chain: after ANY history, the list the stage loops walk for a handler is
@@ -221,6 +221,85 @@ Theorem C09_prewrite_reenter_refuted :
     ~ NoDup (trace_of (sd_plan (send_flow true PreWriteCall PostWriteCall gc n WOk))).
 Proof. exact send_reenter_refuted. Qed.
 Print Assumptions C09_prewrite_reenter_refuted.
+
+(* Fault paths of the handling side (exchange_f): FNoPool = no goroutine in the pool when the
+   message is read (a CALL is answered on the read goroutine, a PUSH skipped), FBadReply = the
+   handler's result cannot be written (substitute 500 reply).  Under every fault and for all
+   histories: each stage function runs at most once per message, no hook fires twice, hooks
+   fire in stage order ... *)
+Theorem C09_fault_hooks_once : forall f opsc opss cli srv m,
+  run opsc = Some cli -> run opss = Some srv ->
+  let r := exchange_f f cli srv m in
+  NoDup (map fst (r_cli_prh r ++ r_cli r)) /\ NoDup (map fst (r_srv_prh r ++ r_srv r)) /\
+  NoDup (trace_of (r_cli_prh r ++ r_cli r)) /\ NoDup (trace_of (r_srv_prh r ++ r_srv r)) /\
+  StronglySorted ev_le (trace_of (r_cli r)) /\ StronglySorted ev_le (trace_of (r_srv r)).
+Proof. exact fault_hooks_once_lemma. Qed.
+Print Assumptions C09_fault_hooks_once.
+
+(* ... a refusal before the handler blocks it and is what the caller receives: it wins over
+   "no goroutine available"; without a goroutine no handler runs at all. *)
+Theorem C09_fault_veto : forall f cli srv m,
+  let r := exchange_f f cli srv m in
+  (forall s c, In (s, c) (r_cli r ++ r_srv_prh r ++ r_srv r) ->
+     pre_handler s = true -> vetoes s c = true -> r_invoked r = []) /\
+  (f = FNoPool -> r_invoked r = []) /\
+  (r_invoked r = [] \/
+   exists hid hs hc, lookup_view srv m = Some (hid, hs, hc) /\ r_invoked r = [hid] /\ r_written r = true) /\
+  (forall s c, In (s, c) (r_srv r) -> callee_status_stage s = true -> vetoes s c = true ->
+     vetoes PreReadHeader (global_flat cli) = false ->
+     vetoes PostReadReplyHeader (global_flat cli) = false ->
+     vetoes PreReadReplyBody (global_flat cli) = false ->
+     r_status r = verdict_of s c /\ r_status r <> 0%Z).
+Proof. exact fault_veto_lemma. Qed.
+Print Assumptions C09_fault_veto.
+
+Theorem C09_fault_refines : forall f opsc opss cli srv m,
+  run opsc = Some cli -> run opss = Some srv ->
+  exchange_f f cli srv m = spec_exchange_f f (spec_of opsc) (spec_of opss) m.
+Proof. exact exchange_f_refines_lemma. Qed.
+Print Assumptions C09_fault_refines.
+
+Theorem C09_fault_none_is_exchange : forall cli srv m, exchange_f FNone cli srv m = exchange cli srv m.
+Proof. exact exchange_f_none. Qed.
+Print Assumptions C09_fault_none_is_exchange.
+
+(* the status the handling side answers without a goroutine: refusal, else 404, else 500 *)
+Theorem C09_nopool_status : forall g h,
+  vetoes PreReadHeader g = false ->
+  sr_invoked (srv_call_nopool g h) = [] /\
+  sr_out (srv_call_nopool g h) =
+    SReplied (if vetoes PostReadCallHeader g then verdict_of PostReadCallHeader g
+              else match h with
+                   | None => code_not_found
+                   | Some (_, _, hc) => if vetoes PreReadCallBody hc then verdict_of PreReadCallBody hc
+                                        else code_internal
+                   end).
+Proof. exact nopool_status. Qed.
+Print Assumptions C09_nopool_status.
+
+(* the failed-write path has exactly one PreWriteReply and no PostWriteReply *)
+Theorem C09_badreply_path : forall g hid hc,
+  vetoes PreReadHeader g = false -> vetoes PostReadCallHeader g = false ->
+  vetoes PreReadCallBody hc = false -> vetoes PostReadCallBody hc = false ->
+  srv_call_badreply g (Some (hid, 0%Z, hc)) =
+  mkSrv [(PreReadHeader, g)]
+        [(PostReadCallHeader, g); (PreReadCallBody, hc); (PostReadCallBody, hc); (PreWriteReply, hc)]
+        [hid] (SReplied code_internal).
+Proof. exact badreply_path. Qed.
+Print Assumptions C09_badreply_path.
+
+(* the variants: a pool fallback that overwrites the status binding left, and a substitute
+   reply that goes through PreWriteReply again *)
+Theorem C09_fault_variants_refuted :
+  (exists g h v, vetoes PreReadHeader g = false /\ vetoes PostReadCallHeader g = true /\
+     verdict_of PostReadCallHeader g = v /\ v <> code_internal /\
+     sr_out (srv_call_nopool g h) = SReplied v /\
+     sr_out (srv_call_nopool_overwrite g h) = SReplied code_internal) /\
+  (exists g h, NoDup (map p_name g) /\
+     ~ NoDup (map fst (sr_plan (srv_call_badreply_again g h))) /\
+     ~ NoDup (trace_of (sr_plan (srv_call_badreply_again g h)))).
+Proof. exact fault_variants_refuted. Qed.
+Print Assumptions C09_fault_variants_refuted.
 
 (* every chain of a reachable state has pairwise distinct plugin names *)
 Theorem C09_chains_distinct : forall ops st,
